@@ -106,8 +106,10 @@ def flatten(tr, data: bytes, names: list):
     return hdr, cmds
 
 
-def run_config(ctx, tr, build, scn, k, via):
-    d = ctx.tmp("c19")
+def run_config(ctx, tr, build, scn, k, via, shared=None):
+    # odd k: ONE artifacts folder for the whole run, children regenerated under the SAME file names (what an incremental build
+    # does); even k: a fresh folder and names that carry k
+    d = shared if (shared is not None and k % 2) else ctx.tmp("c19")
     art = str(d) + "/"
     data = {"artifacts_folder": art, "sysbuild": {"config": {}}}
     names = []
@@ -171,7 +173,8 @@ def run_config(ctx, tr, build, scn, k, via):
 def run(ctx: core.Check):
     ctx.cov["rule"] = ("configuration = template x image subset x default/custom MPI names x version setting {none, DEFAULT_*, "
                        "template-specific}: 42 + 3 configurations enumerated completely by TLC; child envelopes are generated "
-                       "(sampled shapes). Distinct & non-trivial = every configuration.")
+                       "(sampled shapes); every second configuration is built in ONE shared artifacts folder with the children "
+                       "regenerated under the same file names. Distinct & non-trivial = every configuration.")
     g = ctx.mc("Template_MC", "Template_MC.cfg", workers=1, coverage=False, label="A:model-check + B:configuration enumeration")
     scns = g.tagged("SCN")
     for s in scns:
@@ -180,10 +183,11 @@ def run(ctx: core.Check):
     tr = toolrun.Trace()
     reps = 1 if ctx.quick else 12
     k = 0
+    shared = ctx.tmp("c19shared")
     for rep in range(reps):
         for s in scns:
             k += 1
-            run_config(ctx, tr, build, s, k, "cli" if k % 9 == 0 else "lib")
+            run_config(ctx, tr, build, s, k, "cli" if k % 9 == 0 else "lib", shared=shared)
             if k == 5:
                 ctx.sample({"configuration": s, "events": tr.of(tr.tid)[:12]})
     ctx.cov["exhaustive"] = True
@@ -196,7 +200,11 @@ def run(ctx: core.Check):
 def replay(ctx, rec):
     scn = rec["replay"]["scenario"]
     tr = toolrun.Trace()
-    run_config(ctx, tr, build_mod(), scn["scn"], 1, scn.get("via", "lib"))
+    # a configuration of the shared-folder history is replayed after one other configuration has used the folder
+    shared = ctx.tmp("c19shared")
+    build = build_mod()
+    run_config(ctx, toolrun.Trace(), build, dict(scn["scn"]), 3, "lib", shared=shared)
+    run_config(ctx, tr, build, scn["scn"], 1, scn.get("via", "lib"), shared=shared)
     ctx.nontriv("replay")
     ctx.nontriv("replay2")
     ctx.sample({"replayed": scn})
